@@ -36,7 +36,7 @@ C_Util(e) == e.op = "util" =>
    CASE e.name = "Coal" -> e.r = FirstNonZero(e.v)
      [] e.name \in {"Tern", "TernCast"} -> e.r = (IF e.cond THEN e.v[1] ELSE e.v[2])
      [] e.name \in {"Zero", "ZeroOf"} -> e.r = 0
-     [] e.name = "IsZero" -> e.rb = (e.v[1] = 0 \/ e.kind = "zeroer-true")   \* a type with an IsZero method is honoured
+     [] e.name = "IsZero" -> e.rb = (e.v[1] = 0 \/ e.kind \in {"zeroer-true", "ptr-zeroer"})   \* the zero value is zero; else an IsZero method is honoured
      [] e.name = "RefDeref" -> e.r = e.v[1] /\ e.rb                           \* *Ref(v) = v, and two Refs are distinct pointers
      [] e.name = "DerefZero" -> e.r = (IF e.kind = "nil" THEN 0 ELSE e.v[1])
      [] e.name = "IsNil" -> e.rb = (e.kind \in {"nil-any", "nil-error"})      \* typed nil pointer inside an interface is not nil
